@@ -4,7 +4,7 @@
 # generated from the current files), then runs the check.
 set -u
 export GOFLAGS=-mod=mod GOPROXY=off GOSUMDB=off GOTOOLCHAIN=local
-export VERIF_DIR="${VERIF_DIR:-/verif}"
+export VERIF_DIR="${VERIF_DIR:-$(cd "$(dirname "${BASH_SOURCE[0]}")" && pwd)}"
 export VERIF_REPO="${VERIF_REPO:-/repo}"
 cd "$VERIF_DIR" || exit 2
 id="$1"; shift
